@@ -1,13 +1,14 @@
 import Wayfind.Proofs.Reachable
 import Wayfind.Proofs.Corollaries
 import Wayfind.Proofs.Registry6
+import Wayfind.Proofs.LiveWalk2
 
 /-! # C06 — templates do not interfere
 If a reachable router `r2` holds all routes of a reachable router `r1` and every additional route does not fit `path`,
 the result for `path` is the same on both: adding (read backwards: removing) templates that do not fit a path cannot
 change how it is routed. A path the added routes do fit is matched afterwards (C02).
-Status: the insert half is proved on live templates for every history; the delete half follows from
-`C06_non_interference` and the registry's delete step (`Reg.delete`), stated on stored routes. -/
+Status: both halves are proved on live templates for every history (`C06_insert_changes_only_fitting_paths`,
+`C06_inserted_template_is_routed`, `C06_delete_changes_only_fitting_paths`), and on stored routes. -/
 
 theorem C06_non_interference (env : Env) (r1 r2 : Router) (h1 : Reachable r1) (h2 : Reachable r2) (path : Bytes)
     (hsub : ∀ P i, Mem (Node.routes r1.root) P i → Mem (Node.routes r2.root) P i)
@@ -28,3 +29,10 @@ theorem C06_inserted_template_is_routed (env : Env) (r r' : Router) (L : List Li
     (hi : r.insert t d = .ok r') (ts : List (Bytes × List Part)) (hp : parseTemplates t = .ok ts)
     (path : Bytes) (hfit : ∃ e ∈ ts, ∃ vs, Fits env e.2 path vs) : (r'.search env path).isSome = true :=
   insert_routes env h hi ts hp path hfit
+
+/-- **Delete half, on live templates.** Deleting a live template changes the result only for paths that one of its
+expansions fits: every other path keeps exactly its previous result. -/
+theorem C06_delete_changes_only_fitting_paths (env : Env) (r : Router) (L : List LiveT) (h : Live r L) (lt : LiveT) (hlt : lt ∈ L)
+    (path : Bytes) (hnofit : ∀ e ∈ lt.exps, ¬ ∃ vs, Fits env e.2 path vs) :
+    (r.delete lt.template).2.search env path = r.search env path :=
+  delete_changes_only_fitting_paths env h lt hlt path hnofit
